@@ -62,6 +62,9 @@ CLAIMED = {
     'C18': ('DESIGN.md 4 C18', E1,
             'Return instant, result, fields, no transmission when the cache suffices, QU-then-QM, omitted questions and query spacing of the real async_request coroutine for every timeout, every age / TTL of pre-cached records and every arrival offset / TTL of later records, over enumerated cache contents and arrival orders.',
             'Trusted: as C05. Timeout range 200..1000 ms when records are cached or arrive (200..10000 ms otherwise) to keep path trees exhaustible.'),
+    'C19': ('DESIGN.md 4 C19', E1,
+            'The real service_type_name body on strings with concrete structure and up to 4 (5) free characters over a 15-code-point alphabet, both strict modes: only BadTypeInNameException, accepted => every documented rule holds and the service type is returned, rejected => some rule is violated; templates at the 15/16-character, 63/64-octet and 256/257-character boundaries. TXT properties: encode / library decode / independent RFC 6763 reader agree for enumerated item structures with solver-chosen lengths.',
+            'Trusted: CrossHair, z3, the SymStr string model and regex character-class stand-ins (vkit/symstr.py); counterexamples are replayed on the real function with a real str and the real regexes. TXT octet values are concrete.'),
     'C20': ('DESIGN.md 4 C20', E1,
             'Equality / hash-input congruence of all record kinds and questions with type, class word, TTL, created, SRV numbers and scope id as independent solver integers; names and rdata strings from enumerated spellings.',
             'Trusted: CrossHair models of int/tuple equality, z3. Strings are not symbolic.'),
